@@ -895,6 +895,33 @@ func TestVerif_C44(t *testing.T) {
 			if err != nil {
 				c.ToolError(err.Error())
 			}
+			// the explorer evaluates the oracle only in the state a history ENDS in; do the same here (the
+			// step-by-step replay above additionally evaluates it after every prefix)
+			if err == nil {
+				sp := c44Spec(cfg, d.Spec, 99, false)
+				st := sp.New()
+				var hist []c44Ev
+				ok := true
+				for i, want := range d.History {
+					found := false
+					for _, ev := range sp.Enabled(st, i) {
+						if sp.Show(ev) == want {
+							sp.Apply(st, ev)
+							hist = append(hist, ev)
+							found = true
+							break
+						}
+					}
+					if !found {
+						ok = false
+						break
+					}
+				}
+				if ok {
+					fails = append(fails, sp.Check(st, hist)...)
+					fmt.Printf("INFO C44 replay end state: %s\n", c44Key(st))
+				}
+			}
 			for _, f := range fails {
 				c.Violation(f.Key, map[string]any{"spec": d.Spec, "history": d.History, "msg": f.Msg})
 			}
